@@ -1070,9 +1070,8 @@ class _TftpReadRequest:
                     # block number in the DATA packet.
                     ack_received = ack_block_number == block_number
             except socket.timeout:
-                if tries_left > 0:
-                    tries_left -= 1
-                else:
+                tries_left -= 1
+                if tries_left <= 0:
                     raise
 
     def _send_options_ack(self):
@@ -1095,9 +1094,8 @@ class _TftpReadRequest:
                     # zero.
                     ack_received = block_number == 0
             except socket.timeout:
-                if tries_left > 0:
-                    tries_left -= 1
-                else:
+                tries_left -= 1
+                if tries_left <= 0:
                     raise
 
     def _set_socket_timeout(self):
